@@ -57,7 +57,9 @@ def seqSpec (o : Oracle) : List OptItem → Opts → Except String Opts
 
 theorem mem_optionOrder (kw : String) (h : kw ∈ Tables.optionOrder) :
     kw = "futures_crate_path" ∨ kw = "custom_joiner" ∨ kw = "transpose_results" ∨ kw = "lazy_branches" := by
-  simpa [Tables.optionOrder] using h
+  -- whatever the order in which the table lists the four keywords
+  simp only [Tables.optionOrder, List.mem_cons, List.not_mem_nil, or_false] at h
+  rcases h with h | h | h | h <;> simp [h]
 
 theorem optionKw_render (it : OptItem) (rest : Toks) (h : it.kw ∈ Tables.optionOrder) :
     optionKw (it.render ++ rest) = some it.kw := by
